@@ -164,6 +164,7 @@ Example C02_nonvacuous :
   fortran_roll [1; 2; 3; 4; 5]%nat 2 = [4; 5; 1; 2; 3]%nat.
 Proof.
   cbv zeta. split; [apply increasingb_ok; vm_compute; reflexivity|].
-  repeat split; vm_compute; reflexivity.
+  split; [vm_compute; reflexivity|]. split; [vm_compute; reflexivity|]. split; [vm_compute; reflexivity|].
+  split; [vm_compute; reflexivity|]. split; vm_compute; reflexivity.
 Qed.
 Print Assumptions C02_nonvacuous.
